@@ -117,7 +117,13 @@ def text_variants(rng, text):
     doubled character, content after the root, control characters).  Which is which is decided by expat in run()."""
     decl = rng.choice(['<?xml version="1.0"?>', '<?xml version="1.0" encoding="UTF-8"?>', "<?xml version='1.0' encoding='utf-8' standalone='yes'?>"])
     ws = rng.choice(['\n', ' ', '\r\n', '\t', '\n\n  '])
-    r = rng.randrange(14)
+    r = rng.randrange(17)
+    if r == 14:
+        return rng.choice(['<!DOCTYPE mos>', '<!DOCTYPE mos SYSTEM "mos.dtd">', '<!DOCTYPE mos PUBLIC "-//MOS//DTD" "mos.dtd">']) + text
+    if r == 15:
+        return decl + '\n<!DOCTYPE mos [<!ENTITY station "BBC"> <!ELEMENT mos ANY>]>\n' + text     # an internal subset, unused
+    if r == 16:
+        return '<!DOCTYPE mos [<!ENTITY station "BBC">]>' + text.replace('<mosID>', '<mosID>&station;', 1)   # ... and used
     if r == 0:
         return ws + text
     if r == 1:
